@@ -4,6 +4,8 @@ Generator: scenario trees over a fixed resource API (two collections, nesting, a
 (operation, identifier values, response status, parent pointer, which parameters came from the link).
   * ``trees_enum``  bounded exhaustive enumeration (all trees of <=2 nodes in the quick tier, <=3 in the thorough tier
                     over a reduced node universe),
+  * ``engine``      real stateful runs against a scripted API with a resource lifecycle; the predicate is evaluated on the
+                    recorded scenario trees (statuses from the API's own log) and compared with the recorded check results,
   * ``trees_rand``  Hypothesis-sampled trees of up to 8 nodes over the full universe (shrunk on failure).
 Cases are real: drawn from ``operation.as_strategy(**link_kwargs)`` exactly as the state machine does, recorded into
 a real ``ScenarioRecorder`` in order; both checks are executed after each node with a real ``CheckContext``.
@@ -310,15 +312,149 @@ def random_tree(draw):
     return nodes
 
 
+# ---- engine level: a real stateful run against an API with a lifecycle --------------------------------------------
+
+
+@st.composite
+def engine_case(draw):
+    return {
+        "uaf_bug": draw(st.booleans()),  # a deleted user can still be read
+        "lost_after_create": draw(st.integers(0, 3)) == 0,  # every third created user is not readable right away (404)
+        "delete_forbidden_first": draw(st.booleans()),  # the first DELETE of a user is refused (403), the second works
+        "secured": draw(st.booleans()),
+        "ignored_auth": draw(st.booleans()),
+        "seed": draw(st.integers(0, 10000)),
+        "steps": draw(st.integers(3, 6)),
+        "max_examples": draw(st.integers(4, 12)),
+    }
+
+
+def _engine_doc(inp):
+    ident = {"name": "id", "in": "path", "required": True, "schema": {"type": "integer"}}
+    to_get = {"operationId": "getUser", "parameters": {"id": "$request.path.id"}}
+    to_delete = {"operationId": "deleteUser", "parameters": {"id": "$request.path.id"}}
+    doc = {
+        "openapi": "3.0.2", "info": {"title": "t", "version": "1"},
+        "paths": {
+            "/users": {"post": {"operationId": "createUser", "requestBody": {"required": True, "content": {"application/json": {"schema": {"type": "object", "properties": {"name": {"type": "string", "maxLength": 5}}, "required": ["name"]}}}},
+                                "responses": {"201": {"description": "created", "links": {"get": {"operationId": "getUser", "parameters": {"id": "$response.body#/id"}}, "delete": {"operationId": "deleteUser", "parameters": {"id": "$response.body#/id"}}}}}}},
+            "/users/{id}": {
+                "get": {"operationId": "getUser", "parameters": [ident], "responses": {"200": {"description": "ok", "links": {"delete": to_delete, "again": to_get}}, "404": {"description": "gone"}}},
+                "delete": {"operationId": "deleteUser", "parameters": [ident], "responses": {"204": {"description": "deleted", "links": {"get": to_get, "delete": to_delete}}, "403": {"description": "refused", "links": {"delete": to_delete, "get": to_get}}, "404": {"description": "gone"}}},
+            },
+        },
+    }
+    if inp["secured"]:
+        doc["components"] = {"securitySchemes": {"tok": {"type": "http", "scheme": "bearer"}}}
+        doc["security"] = [{"tok": []}]
+    return doc
+
+
+def check_engine(ctx: Ctx, inp) -> None:
+    """The statement's predicate, evaluated on the scenario trees a real stateful run produced (statuses are the ones the API
+    gave, taken from its own log), against the check results the engine recorded for each request."""
+    import re
+    import threading
+
+    from vfw.harness import engine_run, loopback
+
+    users: dict = {}
+    state = {"next": 1, "refused": set()}
+    truth: dict = {}
+    lock = threading.Lock()
+
+    def script(req, ordinal):
+        with lock:
+            cid = req.header("X-Schemathesis-TestCaseId")
+
+            def answer(status, body=None):
+                truth.setdefault(cid, status)
+                return loopback.json_reply(status, body if body is not None else {}) if status != 204 else loopback.Reply(204, {}, b"")
+
+            if inp["secured"] and req.header("Authorization") != "Bearer good":
+                return answer(401, {"error": "unauthorized"})
+            m = re.fullmatch(r"/users/(-?\d+)", req.path)
+            if req.path == "/users" and req.method == "POST":
+                uid = state["next"]
+                state["next"] += 1
+                users[uid] = "lost" if inp["lost_after_create"] and uid % 3 == 0 else "live"
+                return answer(201, {"id": uid})
+            if m:
+                uid = int(m.group(1))
+                st_ = users.get(uid)
+                if req.method == "GET":
+                    if st_ == "live" or (st_ == "deleted" and inp["uaf_bug"]):
+                        return answer(200, {"id": uid})
+                    return answer(404, {"error": "not found"})
+                if req.method == "DELETE":
+                    if st_ in (None, "deleted"):
+                        return answer(404, {"error": "not found"})
+                    if inp["delete_forbidden_first"] and uid not in state["refused"]:
+                        state["refused"].add(uid)
+                        return answer(403, {"error": "later"})
+                    users[uid] = "deleted"
+                    return answer(204)
+            return answer(404, {"error": "no route"})
+
+    server = loopback.shared(script)
+    checks = ["use_after_free", "ensure_resource_availability"] + (["ignored_auth"] if inp["ignored_auth"] else [])
+    cfg = {"phases": ["stateful"], "seed": inp["seed"], "checks": checks, "max_examples": inp["max_examples"], "stateful_step_count": inp["steps"], "no_shrink": True, "continue_on_failure": True}
+    if inp["secured"]:
+        cfg["network"] = {"headers": {"Authorization": "Bearer good"}}
+    record = engine_run.run_engine(_engine_doc(inp), cfg, server, max_wall_s=60)
+    if record.exception:
+        ctx.case(classes=["engine-exception"])
+        ctx.disagree("engine:exception:" + record.exception.split(":")[0], f"engine run raised {record.exception}", input=inp)
+        return
+    first_seen: set = set()
+    for e in record.of_type("ScenarioFinished"):
+        if e["phase"] != "STATEFUL_TESTING":
+            continue
+        rec = e["recorder"]
+        ids = [cid for cid, c in rec["cases"].items() if not (c["parent_id"] is not None and c["transition"] is None)]  # without the checks' own probes
+        index = {cid: i for i, cid in enumerate(ids)}
+        nodes = []
+        for cid in ids:
+            c = rec["cases"][cid]
+            if cid not in truth:
+                break  # never answered (the run stopped): nothing to judge from here on
+            template = "/users/{id}" if c["path_parameters"] else "/users"
+            parent = index.get(c["parent_id"]) if c["parent_id"] in index else None
+            nodes.append({"method": c["method"].lower(), "path": template, "pp": dict(c["path_parameters"] or {}), "status": truth[cid], "parent": parent, "linked": "all" if parent is not None else "none"})
+        for i, n in enumerate(nodes):
+            exp_uaf, exp_era = reference(nodes, i)
+            recorded = rec["checks"].get(ids[i], [])
+            got = {name: any(c["name"] == name and c["status"] == "FAILURE" for c in recorded) for name in ("use_after_free", "ensure_resource_availability")}
+            label = f"{n['method'].upper()} {n['path']}"
+            ctx.case(nontrivial=[inp, ids[i]] if (exp_uaf or exp_era or any(got.values())) else None, classes=[f"secured={inp['secured']}", f"ignored_auth={inp['ignored_auth']}", f"expected-uaf={exp_uaf}", f"expected-era={exp_era}", f"nodes={min(len(nodes), 6)}"], sample={"input": inp, "tree": nodes[: i + 1], "recorded": recorded})
+            for name, exp in (("use_after_free", exp_uaf), ("ensure_resource_availability", exp_era)):
+                if exp is None:
+                    continue
+                if got[name] and not exp:
+                    ctx.disagree(f"engine:{name}:reported-but-not-implied", f"{name} recorded for {label} (node {i}) but the history does not imply it: {nodes[: i + 1]}", input=inp)
+                if exp and not got[name] and name == "use_after_free":
+                    # ("not available after creation" is stated as *only for*: with a security parameter next to the linked ones
+                    # the engine never reports it, which the statement allows - the converse is asserted on hand-built trees only)
+                    # the stateful phase reports one failure per (check, operation) and run: only the first implied one must be there
+                    key = (name, label)
+                    if key not in first_seen and not any(c["name"] == name for c in recorded if c["status"] == "FAILURE"):
+                        ran = any(c["name"] == name for c in recorded)
+                        if ran:
+                            ctx.disagree(f"engine:{name}:implied-but-not-reported", f"{name} passed for {label} (node {i}) although the history implies it: {nodes[: i + 1]}", input=inp)
+                if exp:
+                    first_seen.add((name, label))
+
+
 SUBS = [
+    Sub("engine", collect=True, fn=check_engine, strategy=engine_case, quick=(16, 8), thorough=(16, 300), shrink_quick=False, timeout_quick=600, timeout_thorough=3400),
     Sub("trees_enum", fn=check_tree, enumerate=enum_trees, quick=(16, 0), thorough=(16, 0), exhaustive=True, timeout_quick=300, timeout_thorough=3000),
     Sub("trees_rand", fn=check_tree, strategy=random_tree, quick=(8, 1500), thorough=(16, 25000), timeout_quick=300, timeout_thorough=3000),
 ]
-FLOOR = {"trees_enum": 1000, "trees_rand": 1000}
+FLOOR = {"trees_enum": 1000, "trees_rand": 1000, "engine": 500}
 
 MANIFEST = {
     "category": "exploration",
-    "technique": "bounded exhaustive enumeration + Hypothesis-sampled scenario trees against a reference predicate",
-    "text": "All scenario trees of <=2 (quick) / <=3 (thorough) nodes over a reduced resource universe are enumerated and larger trees (<=8 nodes, more statuses, partially linked parameters) are sampled with Hypothesis; both lifecycle checks run on real cases in a real ScenarioRecorder after every node and are compared with the statement's predicate in both directions. Exploration: a green run is 'held on everything explored'.",
+    "technique": "bounded exhaustive enumeration + Hypothesis-sampled scenario trees against a reference predicate; the same predicate evaluated on the scenario trees of real stateful engine runs against a scripted API with a resource lifecycle",
+    "text": "All scenario trees of <=2 (quick) / <=3 (thorough) nodes over a reduced resource universe are enumerated and larger trees (<=8 nodes, more statuses, partially linked parameters) are sampled with Hypothesis; both lifecycle checks run on real cases in a real ScenarioRecorder after every node and are compared with the statement's predicate in both directions. A third sub-check runs the real stateful engine (with and without a security scheme, configured credentials and the ignored_auth check) against a loopback API with a lifecycle (create, refuse / perform delete, read after delete); the predicate is evaluated on the recorded scenario trees with the statuses the API itself logged, and compared with the check results recorded for each request (use_after_free both ways, not-available-after-creation as 'only if'). Exploration: a green run is 'held on everything explored'.",
     "note": "Trusts CPython and Hypothesis as generator/shrinker; cases recorded by hand rather than by a live state machine; the plural heuristic of path matching is not exercised.",
 }
